@@ -141,3 +141,15 @@ package sonic
 //@ func ext:syscall.Sendto
 //@   trusted
 //@   modifies nothing
+
+//@ func (*listener).Close
+//@   prop C01, C03
+//@   requires lInv(l)
+//@   ensures [disarmed] !lArmed(l) && !internal.armed(&l.slot, internal.PollerWriteEvent)
+//@   ensures [accounting] l.ioc.poller.pending == old(l.ioc.poller.pending) - (old(lArmed(l)) ? 1 : 0) - (old(internal.armed(&l.slot, internal.PollerWriteEvent)) ? 1 : 0)
+
+//@ func (*packetConn).Close
+//@   prop C01, C03
+//@   requires pcInv(c)
+//@   ensures [disarmed] !pcArmedR(c) && !pcArmedW(c) && c.closed == 1
+//@   ensures [accounting] c.ioc.poller.pending == old(c.ioc.poller.pending) - (old(pcArmedR(c)) ? 1 : 0) - (old(pcArmedW(c)) ? 1 : 0)
